@@ -198,7 +198,7 @@ def rule_normalise(r):
         raise AnalysisError("pinhole_resolution: return of the weight matrix not found")
     W = rets[-1].value.id
     norm = [s for s in cfg.stmts() if isinstance(s, ast.AugAssign) and isinstance(s.op, ast.Div)
-            and pf.unparse(s.target) == W and "sum(%s, axis=0)" % W in pf.unparse(s.value).replace("np.", "")]
+            and pf.unparse(s.target) == W and "sum(%s, axis=0)" % W in pf.inlined_text(fn, s.value).replace("np.", "")]
     if not norm:
         r.violation(R, "pinhole_resolution", "%s /= sum(%s, axis=0)" % (W, W), fn.lineno,
                     "no column normalisation: the weights of a smeared point do not sum to one")
@@ -415,15 +415,19 @@ def rule_background(r):
     ok = bool(copy_st and zero) and cfg.dominates(copy_st[0], zero[0]) and cfg.dominates(zero[0], call[0])
     r.check(ok, f, "DataMixin._calc_theory", "%s = %s.copy(); %s['background'] = 0 before call_kernel" % (P, P, P),
             call[0].lineno, "theory is computed without background")
-    bg = [s for s in cfg.stmts() if isinstance(s, ast.Assign) and pf.unparse(s.targets[0]) == "background"]
+    bg = [s for s in cfg.stmts() if isinstance(s, ast.Assign) and "%s.get('background'" % P in pf.unparse(s.value)]
     r.check(bool(bg) and "%s.get('background'" % P in pf.unparse(bg[0].value) and cfg.dominates(bg[0], zero[0]) if zero else False,
             f, "DataMixin._calc_theory", "background read from the caller's parameters before it is zeroed",
             bg[0].lineno if bg else 0)
     rets = [s for s in cfg.stmts() if isinstance(s, ast.Return)]
     res = [s for s in cfg.stmts() if isinstance(s, ast.Assign) and isinstance(s.value, ast.Call)
            and pf.call_name(s.value) == "self.resolution.apply"]
-    okr = bool(rets and res) and pf.unparse(rets[-1].value) in ("%s + background" % pf.unparse(res[0].targets[0]),
-                                                                 "background + %s" % pf.unparse(res[0].targets[0]))
+    bgname = pf.unparse(bg[0].targets[0]) if bg else "background"
+    okr = False
+    if rets and res:
+        rv = rets[-1].value
+        smeared = pf.unparse(res[0].targets[0])
+        okr = isinstance(rv, ast.BinOp) and isinstance(rv.op, ast.Add) and {pf.unparse(rv.left), pf.unparse(rv.right)} == {smeared, bgname}
     r.check(okr, f, "DataMixin._calc_theory", "return %s" % (pf.unparse(rets[-1].value) if rets else "?"),
             rets[-1].lineno if rets else 0, "background is added after smearing")
     if res and call:
